@@ -11,8 +11,8 @@ import (
 )
 
 func init() {
-	register("C06", "other", "T8 normalised comparisons (max / interval overlap), T4 two-sided guards, loop abstraction (every branch / every parent / every pair), provenance (what is gathered, collected and stored), T20 WrapperDelegation",
-		"Decides the structural necessary conditions of the merged vector clock, not its values. Every clause works on the inlined view of its function (c06_inline.go): helpers of the same package that contain the calls the clause talks about are expanded in place (parameters bound to the arguments, single-return predicates substituted into conditions, results handed over through a result variable), so the facts are the same whether a loop, a loop body, a search or the final store is written out or lives in an extracted method; a stored entry may be a result carrier that receives the accumulator after the scan or the fork-detected branch itself. (gather) the merged entry of a creator is computed from every branch of that creator: the accumulator starts as the zero entry, is replaced by a branch exactly on the edges `branch is fork-detected` or `branch.Seq > accumulated.Seq` (normal form, so the maximum and not the minimum or the last is kept), the loop is left early only after a fork-detected branch, and the accumulator is stored for the requested validator on every path. (collect) when an event's vector collects a parent's vector the loop covers all branch indexes 0..num-1, an iteration ends without a write only when the parent's entry is empty (Seq == 0 and not fork-detected), the own entry is already fork-detected, or the own Seq is not smaller; the own Seq is overwritten by the parent's exactly on the `mine.Seq < his.Seq` edge and then stored. (fill) every parent's stored vector is collected into the vector that is later stored for the event, over all branches, after the vector was initialised with the event's own (branch, seq, seq). (detect) forks not seen by a single parent: for every validator not already marked, every ordered pair of distinct, non-empty branches is tested with the interval-overlap test MinSeq(a) <= Seq(b) && MinSeq(b) <= Seq(a) (normal form), the fork is marked exactly on that edge, and the pass runs whenever the index has at least one fork. (merge) the merged query gathers, for every creator, that creator's branches from the stored vector of the same event, and returns the stored vector itself only when no fork exists. (adapter) the consensus-side view reads Seq and the fork flag of the same entry. Not decided: that the branch bookkeeping (BranchIDByCreators, MinSeq/Seq ranges per branch) describes the DAG, i.e. the equality of each entry with the graph quantity for all DAGs and indexing orders.",
+	register("C06", "other", "T8 normalised comparisons (max / interval overlap), T4 two-sided guards, loop abstraction (every branch / every parent / every pair), provenance (what is gathered, collected and stored), ownership (storage origins of the branch table), T20 WrapperDelegation",
+		"Decides the structural necessary conditions of the merged vector clock, not its values. Every clause works on the inlined view of its function (c06_inline.go): helpers of the same package that contain the calls the clause talks about are expanded in place (parameters bound to the arguments, single-return predicates substituted into conditions, results handed over through a result variable), so the facts are the same whether a loop, a loop body, a search or the final store is written out or lives in an extracted method; a stored entry may be a result carrier that receives the accumulator after the scan or the fork-detected branch itself. (gather) the merged entry of a creator is computed from every branch of that creator: the accumulator starts as the zero entry, is replaced by a branch exactly on the edges `branch is fork-detected` or `branch.Seq > accumulated.Seq` (normal form, so the maximum and not the minimum or the last is kept), the loop is left early only after a fork-detected branch, and the accumulator is stored for the requested validator on every path. (collect) when an event's vector collects a parent's vector the loop covers all branch indexes 0..num-1, an iteration ends without a write only when the parent's entry is empty (Seq == 0 and not fork-detected), the own entry is already fork-detected, or the own Seq is not smaller; the own Seq is overwritten by the parent's exactly on the `mine.Seq < his.Seq` edge and then stored. (fill) every parent's stored vector is collected into the vector that is later stored for the event, over all branches, after the vector was initialised with the event's own (branch, seq, seq). (detect) forks not seen by a single parent: for every validator not already marked, every ordered pair of distinct, non-empty branches is tested with the interval-overlap test MinSeq(a) <= Seq(b) && MinSeq(b) <= Seq(a) (normal form), the fork is marked exactly on that edge, and the pass runs whenever the index has at least one fork. (merge) the merged query gathers, for every creator, that creator's branches from the stored vector of the same event, and returns the stored vector itself only when no fork exists. (adapter) the consensus-side view reads Seq and the fork flag of the same entry. (branches) the creator -> branches table that gather and detect read (Engine.bi) is owned exclusively: a bounded storage-origin analysis (c06_own.go: definitions of locals, field-wise struct copies, append/make to the nesting depth of the type, callee summaries, call-site lifting of parameters) shows for every store in the module that the live table receives only freshly allocated / decoded storage or its own, and that no other retained field or package variable receives storage of the live table, so that the in-place change made for an event that is dropped afterwards cannot outlive DropNotFlushed. Not decided: that the branch bookkeeping (BranchIDByCreators, MinSeq/Seq ranges per branch) describes the DAG, i.e. the equality of each entry with the graph quantity for all DAGs and indexing orders; storage handed to a container through a call (cache.Add(k, bi)) or captured by a closure is not followed.",
 		[]string{"branch i < validators.Len() belongs to creator i (BranchesInfo construction, C05/C08)", "entry encoding Get/Set round-trips (vecfc vector codec)", "fork marker is absorbing and consumers use the merged API (C03)"},
 		runC06)
 }
@@ -625,6 +625,10 @@ func runC06(c *core.Ctx) {
 
 	c.Clause("C06.detect", func() {
 		c06Detect(c)
+	})
+
+	c.Clause("C06.branches", func() {
+		c06Branches(c)
 	})
 
 	c.Clause("C06.merge", func() {
